@@ -34,6 +34,8 @@ class FS:
     """a field: int-typed; kind
     plain   -- nothing special
     fv      -- carries a field-level validator (metadata validators(...)): negative is invalid
+    nt      -- typed by a NewType of int on which a function validator is registered (negative is invalid)
+    ann     -- typed Annotated[int, validators(...)] (negative is invalid)
     fb      -- fall_back_on_default (not required): invalid data is replaced by the default
     initvar -- dataclasses.InitVar with init_var(int): reachable by validators as a parameter
     flat    -- a flattened nested dataclass with one required int field"""
@@ -107,12 +109,20 @@ class TS:
     validators: Tuple[VS, ...]
     inherit: bool = False
     count_by: str = "post_init"  # how constructions are counted: __post_init__ | a wrapper of __init__
+    generic: bool = False  # the class is Generic[_T] (its first own plain field is typed _T); deserialized as Cls[int]
+    route: str = "root"  # how the object type is reached: root | field (of a wrapper object) | list (List[...]) | optional
+
+    def tvar_field(self) -> Optional[str]:
+        if not self.generic:
+            return None
+        return next((f.name for f in self.fields if f.kind == "plain" and not (self.inherit and f.in_base)), None)
 
     def f(self, name: str) -> FS:
         return next(x for x in self.fields if x.name == name)
 
     def sig(self) -> str:
-        return "T[" + " ".join(f.sig() for f in self.fields) + " | " + " ".join(v.sig() for v in self.validators) + "]"
+        head = "T" + ("<int>" if self.generic else "") + ("" if self.route == "root" else f"@{self.route}")
+        return head + "[" + " ".join(f.sig() for f in self.fields) + " | " + " ".join(v.sig() for v in self.validators) + "]"
 
 
 # ---------------------------------------------------------------------------
@@ -172,7 +182,9 @@ def _field_line(t: TS, f: FS) -> str:
         args.append(f"default={f.default!r}")
     if md:
         args.append("metadata=" + " | ".join(md))
-    tp = {"initvar": "InitVar[int]", "flat": _inner_name(t, f)}.get(f.kind, "int")
+    tp = {"initvar": "InitVar[int]", "flat": _inner_name(t, f), "nt": f"{t.name}_{f.name}_NT", "ann": "Annotated[int, field_validators(_nonneg)]"}.get(f.kind, "int")
+    if f.name == t.tvar_field():
+        tp = "_T"
     return f"    {f.name}: {tp} = field({', '.join(args)})"
 
 
@@ -285,13 +297,21 @@ def _validator_src(t: TS, v: VS, method: bool, k: int) -> List[str]:
 def type_source(t: TS, rt_module: str) -> str:
     out = [
         "from dataclasses import InitVar, dataclass, field",
+        "from typing import Generic, List, NewType, Optional, TypeVar",
         "from apischema import ValidationError, alias, validator",
+        "from apischema.typing import Annotated",
         "from apischema.metadata import fall_back_on_default, flatten, init_var",
         "from apischema.metadata import validators as field_validators",
         "from apischema.objects import AliasedStr, get_alias, get_field",
         f"from {rt_module} import BUILT, CTRL, LOG, _enter, _nonneg",
         "",
     ]
+    out += ['_T = TypeVar("_T")', ""]
+    for f in t.fields:
+        if f.kind == "nt":
+            # a validator registered on the NewType itself (docs: "Validators for every type")
+            nt = f"{t.name}_{f.name}_NT"
+            out += [f'{nt} = NewType("{nt}", int)', "", "@validator", f"def _check_{nt}(n: {nt}):", "    if n < 0:", '        raise ValidationError("negative")', ""]
     for f in t.fields:
         if f.kind == "flat":
             md = f"metadata=alias({f.alias!r})" if f.alias else ""
@@ -327,9 +347,9 @@ def type_source(t: TS, rt_module: str) -> str:
     vs = list(enumerate(t.validators))
     if t.inherit:
         out += class_block(t.name + "_B", "", [f for f in t.fields if f.in_base], [(k, v) for k, v in vs if v.where == "base"], False)
-        out += class_block(t.name, f"({t.name}_B)", [f for f in t.fields if not f.in_base], [(k, v) for k, v in vs if v.where == "own"], True)
+        out += class_block(t.name, f"({t.name}_B, Generic[_T])" if t.generic else f"({t.name}_B)", [f for f in t.fields if not f.in_base], [(k, v) for k, v in vs if v.where == "own"], True)
     else:
-        out += class_block(t.name, "", list(t.fields), [(k, v) for k, v in vs if v.where == "own"], True)
+        out += class_block(t.name, "(Generic[_T])" if t.generic else "", list(t.fields), [(k, v) for k, v in vs if v.where == "own"], True)
     if t.count_by == "init":
         out += [
             f"_orig_init = {t.name}.__init__",
@@ -342,6 +362,9 @@ def type_source(t: TS, rt_module: str) -> str:
     for k, v in vs:
         if v.where == "func":
             out += _validator_src(t, v, False, k)
+    # the ways the object type is reached
+    use = t.name + ("[int]" if t.generic else "")
+    out += ["@dataclass", f"class {t.name}_W:", f"    wrapped: {use} = field()", "", f"ROUTES = {{'root': {use}, 'field': {t.name}_W, 'list': List[{use}], 'optional': Optional[{use}]}}", ""]
     return "\n".join(out) + "\n"
 
 
@@ -354,6 +377,8 @@ STATUSES = {
     # rootfail: the nested object is rejected by its own validator with a message at its root (no child path)
     "flat": ("absent", "valid", "badtype", "rootfail"),
     "fv": ("absent", "valid", "badtype", "negative"),
+    "nt": ("absent", "valid", "badtype", "negative"),
+    "ann": ("absent", "valid", "badtype", "negative"),
     "fb": ("absent", "valid", "badtype"),
 }
 
@@ -520,7 +545,8 @@ def _mk_validator(t_fields: Tuple[FS, ...], name: str, deps: Tuple[str, ...], wh
 
 
 DECLS = ("plain", "field", "discard_dep", "discard_other", "discard_all", "field_nodiscard", "field_discard_other")
-KINDS = ("plain", "plain", "fv", "fb", "initvar", "flat")
+KINDS = ("plain", "plain", "fv", "fb", "initvar", "flat", "plain", "nt", "ann")
+ROUTES = ("root", "field", "list", "optional")
 
 
 def systematic_types(tier: str) -> List[TS]:
@@ -556,7 +582,9 @@ def systematic_types(tier: str) -> List[TS]:
                         style = STYLES[(i + 3 * j) % len(STYLES)]
                         acc = lambda q, i=i, j=j: ACCESS[(i + j + q) % len(ACCESS)]  # noqa: E731
                         vals.append(_mk_validator(fields, f"v{j}", deps, where, decls[j], style, acc, ("obj", "str", "get_field")[(i + j) % 3], (i + j) % 4 == 1, inherit))
-                    out.append(TS(f"S{i}", fields, tuple(vals), inherit, "post_init" if i % 2 == 0 else "init"))
+                    # every route by which validators reach the node: generic alias or plain class, at the
+                    # root, as a field type, as list items, under Optional
+                    out.append(TS(f"S{i}", fields, tuple(vals), inherit, "post_init" if i % 2 == 0 else "init", generic=i % 3 == 1, route=ROUTES[(i // 3) % 4] if i % 2 else "root"))
     return out
 
 
@@ -595,7 +623,7 @@ def random_types(rng: random.Random, count: int, nmax: int, kmax: int) -> List[T
             style = rng.choice(STYLES)
             acc = lambda q: rng.choice(ACCESS)  # noqa: E731
             vals.append(_mk_validator(fields, f"v{j}", deps, where, decl, style, acc, rng.choice(("obj", "str", "get_field")), rng.random() < 0.2, inherit))
-        out.append(TS(f"R{i}", fields, tuple(vals), inherit, rng.choice(("post_init", "init"))))
+        out.append(TS(f"R{i}", fields, tuple(vals), inherit, rng.choice(("post_init", "init")), generic=rng.random() < 0.35, route=rng.choice(ROUTES) if rng.random() < 0.5 else "root"))
     return out
 
 
@@ -621,7 +649,7 @@ def run(report, tier: str, seed: int):
 
     rng = random.Random(seed)
     nmax, kmax = (3, 4) if tier == "quick" else (4, 4)
-    n_random = 450 if tier == "quick" else 2200
+    n_random = 450 if tier == "quick" else 1500
     optnames = ["none", "suffix"] if tier == "quick" else ["none", "suffix", "camel"]
     types = systematic_types(tier) + random_types(rng, n_random, nmax, kmax)
     log = report.driver(
@@ -673,7 +701,8 @@ def _run_type(log, rt, t: TS, cls, optname: str, rng: random.Random, deserializa
     aliaser = ALIASERS[optname]
     dyn = aliaser or (lambda s: s)
     try:
-        meth = deserialization_method(cls, aliaser=aliaser) if aliaser else deserialization_method(cls)
+        tp = sys.modules[cls.__module__].ROUTES[t.route]
+        meth = deserialization_method(tp, aliaser=aliaser) if aliaser else deserialization_method(tp)
     except BaseException as e:  # noqa: BLE001
         log.case((t.sig(), optname, "compile"), True)
         log.fail(f"compile:{type(e).__name__}:{t.sig()}:{optname}", f"deserialization_method({t.sig()}, aliaser={optname}) raised {e!r}", {"type": t.sig(), "options": optname, "source": type_source(t, tag)}, observed=repr(e), functions_involved=INVOLVED)
@@ -701,7 +730,17 @@ def _run_type(log, rt, t: TS, cls, optname: str, rng: random.Random, deserializa
         log.case(key, True, sample=None if sample_given else {"type": t.sig(), "aliaser": optname, "datum": datum, "failing_validators": [k for k, v in fails.items() if v]})
         sample_given = True
         try:
-            got: Tuple[str, Any] = ("ok", meth(dict(datum)))
+            sent: Any = dict(datum)
+            if t.route == "field":
+                sent = {dyn("wrapped"): sent}
+            elif t.route == "list":
+                sent = [sent]
+            res = meth(sent)
+            if t.route == "field":
+                res = res.wrapped
+            elif t.route == "list":
+                res = res[0] if isinstance(res, list) and len(res) == 1 else res
+            got: Tuple[str, Any] = ("ok", res)
         except ValidationError as e:
             try:
                 got = ("err", [(tuple(x["loc"]), x["err"]) for x in e.errors])
@@ -737,6 +776,11 @@ def _run_type(log, rt, t: TS, cls, optname: str, rng: random.Random, deserializa
 
 def _judge(t: TS, order, status, fails, dyn, extra, got, calls, built, optname, datum) -> List[tuple]:
     exp = reference(t, order, status, fails, dyn, extra)
+    # the errors of the object are located under the place where it stands
+    prefix = {"root": (), "optional": (), "field": (dyn("wrapped"),), "list": (0,)}[t.route]
+    exp.errors = [(prefix + loc, msg) for loc, msg in exp.errors]
+    if t.route == "optional" and exp.errors:
+        exp.errors.append(((), M.bad_type_msg({}, type(None))))  # neither the object nor null
     out: List[tuple] = []
     failing = [k for k, v in fails.items() if v]
     case = {"type": t.sig(), "aliaser": optname, "datum": datum, "field_status": status, "failing_validators": failing, "extra_key": extra}
